@@ -156,6 +156,31 @@ def _optional_sanitized(A, f, node, arg, conv):
 
 
 # ---------------------------------------------------------------- R07.b
+def nan_absorbed(e, param):
+    """Does [round](e) stay finite when `param` is NaN? min(a, b) and
+    max(a, b) return their FIRST argument whenever a comparison with NaN is
+    involved (`b < a` / `b > a` is False), so a clamp absorbs NaN only if a
+    finite bound is the first argument of an enclosing call."""
+    if isinstance(e, ast.Call) and norm(e.func) == 'round' and len(e.args) == 1:
+        e = e.args[0]
+
+    def nan(x):
+        if isinstance(x, ast.Name):
+            return x.id == param
+        if isinstance(x, ast.Call) and norm(x.func) in ('min', 'max') \
+                and len(x.args) == 2:
+            a, b = nan(x.args[0]), nan(x.args[1])
+            return a if (a or b) else False
+        if isinstance(x, ast.Call):
+            return any(nan(a) for a in x.args)
+        if isinstance(x, (ast.BinOp,)):
+            return nan(x.left) or nan(x.right)
+        if isinstance(x, ast.UnaryOp):
+            return nan(x.operand)
+        return False
+    return not nan(e)
+
+
 def clamp_interval(A, f, e, param, env=None):
     """(lo, hi, rounded) such that e == [round](clamp(param, lo, hi))."""
     rounded = False
@@ -228,6 +253,16 @@ def r07b(R):
         R.check(f, rets[0].value if rets else name,
                 iv is not None and iv[0] == 0 and iv[1] == hi and iv[2],
                 '%s must be round(clamp(x, 0, %d)); found %s' % (name, hi, iv))
+        if iv is not None and len(rets) == 1 and clamp_interval(
+                A, f, rets[0].value, f.params[0]) is not None:
+            R.check(f, 'NaN: %s' % norm(rets[0].value),
+                    nan_absorbed(rets[0].value, f.params[0]),
+                    '%s does not absorb NaN: min / max hand back their first '
+                    'argument when a comparison involves NaN, so with the '
+                    'value as the first argument of the outer call a register '
+                    'holding NaN (`{big - big}` with an overflowing literal) '
+                    'reaches round(), which raises, and the machine stops '
+                    'instead of sending an in-range value' % name)
     pc = A.func(PARAMH, 'param_color')
     ok = False
     for n in walk_own(pc.node):
@@ -256,9 +291,26 @@ def r07b(R):
         if n.kind == 'stmt' and isinstance(n.ast, ast.Assign) and \
                 isinstance(n.ast.value, ast.Call) and norm(n.ast.value.func) == 'round':
             rounds += 1
-    R.check(sr, 'x < 0 -> 0; x > 65535 -> 65535; else round(x)',
-            lows == 1 and highs == 1 and rounds == 1,
-            'matrix cells are not clamped to 0..65535 and rounded')
+    # ... or every component goes through param_16 (checked above)
+    via16 = [c for n in cfg.nodes for c in n.calls()
+             if 'param_helper.param_16' in A.callee_names(sr, c)]
+    if via16 and not (lows or highs or rounds):
+        R.ok(sr, 'components sanitised by param_16')
+    else:
+        R.check(sr, 'x < 0 -> 0; x > 65535 -> 65535; else round(x)',
+                lows == 1 and highs == 1 and rounds == 1,
+                'matrix cells are not clamped to 0..65535 and rounded')
+        # NaN fails both comparisons and falls through to round()
+        nan_tests = [n for n in cfg.nodes if n.kind == 'cond' and (
+            'isnan' in norm(n.ast) or (
+                isinstance(n.ast, ast.Compare) and isinstance(n.ast.ops[0], ast.NotEq)
+                and norm(n.ast.left) == norm(n.ast.comparators[0])))]
+        R.check(sr, 'NaN: a component that fails both range tests is not '
+                'rounded', bool(nan_tests) or rounds == 0,
+                'a NaN component of a matrix cell is neither below 0 nor above '
+                '65535, so it reaches round(), which raises: the machine '
+                'stops, while the same register value is sent as 0 to a plain '
+                'light (param_16 absorbs NaN)')
     # every component is kept, and only a missing cell stays None
     loops = [n for n in cfg.nodes if n.kind == 'for'
              and norm(n.ast.iter) == sr.params[0]]
@@ -268,7 +320,9 @@ def r07b(R):
     if ok:
         lp = loops[0]
         body = [m for m, lab in lp.succs if lab is True]
-        target = norm(appends[0].calls()[0].func.value) if appends[0].calls() else ''
+        app_calls = [c for c in appends[0].calls()
+                     if isinstance(c.func, ast.Attribute) and c.func.attr == 'append']
+        target = norm(app_calls[0].func.value) if app_calls else ''
         ok = cfg.find_path(body, lambda n: n is lp, avoid=appends) is None and any(
             r.ret_expr is not None and norm(r.ret_expr) == target
             for r in cfg.return_nodes())
